@@ -1,5 +1,5 @@
 SPECIFICATION Spec
-CONSTANT WithLinger = FALSE
+CONSTANT WithLinger = TRUE
 CONSTANT Fix_HardExit = TRUE
 CONSTANT KillOnTimeout = TRUE
 INVARIANT WorkerGoneInTime
